@@ -372,6 +372,14 @@ pub fn write_evidence(
     std::fs::write(dir.join(format!("{id}.json")), serde_json::to_string_pretty(&ev).unwrap()).ok();
 }
 
+pub fn write_replay_raw(id: &str, v: &Value) -> PathBuf {
+    let dir = Path::new(VERIF).join("replays");
+    std::fs::create_dir_all(&dir).ok();
+    let p = dir.join(format!("{id}-{:016x}.json", case_hash(&v.to_string())));
+    std::fs::write(&p, serde_json::to_string_pretty(v).unwrap()).ok();
+    p
+}
+
 pub fn clear_old_replays(id: &str) {
     if let Ok(rd) = std::fs::read_dir(Path::new(VERIF).join("replays")) {
         for e in rd.flatten() {
